@@ -1,4 +1,6 @@
 import MontePyVerif.Lemmas.Flatten
+import MontePyVerif.Lemmas.Layout
+import MontePyVerif.Lemmas.LayoutModel
 /-!
 # C11 — the problem read does not depend on the file's physical layout
 
@@ -201,6 +203,110 @@ theorem C11_reader_layout (limit : Nat) (cfg : Cfg) (hl : cfg.lineLength = limit
   unfold Spec.fileStream
   rw [hsame]
 
+/-! ## the Spec reader inverts every valid layout -/
+
+open MontePyVerif.Layout in
+/-- a layout of a sequence of inputs is **valid** for the column limit: every input has a word and begins in
+    columns 1-5; every laid-out data line consists of proper words (`WordOK`: not empty, no blank, `$`, tab; not the
+    lone `&`), fits the limit, and — when it begins in columns 1-5 — does not begin with a lone `c`/`C` (it would be a
+    comment line); every C comment line is indented by less than five, has no tab in its text and fits -/
+def ValidLayout (limit : Nat) (items : List (Spec.InputLayout × List Spec.Word)) : Prop :=
+  (∀ it ∈ items, it.1.lead < 5 ∧ it.2 ≠ []) ∧
+  ∀ pl ∈ layInputs items, match pl with
+    | .data d => DLineOK limit d
+    | .comment c => CommentOK limit c
+
+open MontePyVerif.Layout in
+theorem kinds_of_valid (limit : Nat) (pls : List Spec.PLine)
+    (h : ∀ pl ∈ pls, match pl with | .data d => DLineOK limit d | .comment c => CommentOK limit c) :
+    (pls.map Spec.PLine.str).map (Spec.classify limit) = pls.map kindOf := by
+  rw [List.map_map]
+  apply List.map_congr_left
+  intro pl hpl
+  have := h pl hpl
+  cases pl with
+  | data d => exact classify_data d this
+  | comment c => exact classify_comment c this
+
+open MontePyVerif.Layout in
+/-- **C11_spec_layout**: for every sequence of inputs (lists of words), every layout of them that is valid for the
+    column limit — any number of blanks between words, line breaks with five or more blanks, `&` with trailing blanks
+    and the next line anywhere, `$` comments, C comment lines between any two words and in front of any input, leading
+    blanks, trailing blanks — and every starting block, the Spec reader finds exactly these inputs, in that block, in
+    order, word for word. -/
+theorem C11_spec_layout (limit start : Nat) (hs : start < 3) (items : List (Spec.InputLayout × List Spec.Word))
+    (hv : ValidLayout limit items) :
+    Spec.inputsFrom limit start (Spec.renderInputs items) = items.map (fun it => ⟨start, it.2⟩) := by
+  unfold Spec.inputsFrom
+  rw [renderInputs_eq, kinds_of_valid limit _ hv.2]
+  have := run_inputs items ⟨start, none, false⟩ [] hs rfl hv.1
+  rw [List.append_nil] at this
+  rw [this]
+  cases hl : items.getLast? with
+  | none =>
+    have : items = [] := by cases items <;> simp_all
+    subst this; rfl
+  | some last =>
+    simp only [emit, List.nil_append, Spec.run, Spec.close, hs, ↓reduceIte]
+    have hne : items ≠ [] := by intro e; subst e; simp at hl
+    have hlast : items.getLast hne = last := by
+      rw [List.getLast?_eq_some_getLast hne] at hl; exact Option.some.inj hl
+    have hd := List.dropLast_concat_getLast hne
+    rw [hlast] at hd
+    conv => rhs; rw [← hd]
+    simp
+
+/-! ## the reader does not see the layout -/
+
+open MontePyVerif.Layout MontePyVerif.LayoutModel in
+/-- a layout that is valid for MCNP (`ValidLayout`) and on which the code has no reason to differ (`DLineM`,
+    `CommentM`: no character Python counts as white space inside words, only blanks as white space in comment texts,
+    lines shorter than the limit, no `#` in columns 1-5) -/
+def ValidLayoutM (limit : Nat) (items : List (Spec.InputLayout × List Spec.Word)) : Prop :=
+  (∀ it ∈ items, it.1.lead < 5 ∧ it.2 ≠ []) ∧ ∀ pl ∈ layInputs items, PLineOK limit pl
+
+open MontePyVerif.Layout MontePyVerif.LayoutModel in
+theorem ValidLayoutM.valid {limit : Nat} {items : List (Spec.InputLayout × List Spec.Word)}
+    (h : ValidLayoutM limit items) : ValidLayout limit items := by
+  refine ⟨h.1, fun pl hpl => ?_⟩
+  have := h.2 pl hpl
+  cases pl with
+  | data d => exact this.1
+  | comment c => exact this.1
+
+theorem block_lt (b : BlockType) : b.value < 3 := by cases b <;> decide
+
+open MontePyVerif.Layout MontePyVerif.LayoutModel in
+/-- **C11_reader_render**: the model of `read_data`, given the lines of *any* valid layout of a sequence of inputs,
+    yields exactly those inputs — block and words — (and treats read cards among them as the Spec does) -/
+theorem C11_reader_render (limit : Nat) (cfg : Cfg) (hl : cfg.lineLength = limit)
+    (items : List (Spec.InputLayout × List Spec.Word)) (hv : ValidLayoutM limit items) :
+    proj (readData cfg ((Spec.renderInputs items).map (· ++ ['\n']))) =
+      Spec.cutS ((items.map (fun it => (⟨cfg.firstBlock.value, it.2⟩ : Spec.Inp))).map
+        (Spec.outOf (joinPath cfg.topDir) cfg.chain)) := by
+  have hf := fileOK_render limit cfg.firstBlock.value (block_lt _) (layInputs items) hv.2
+  have hm : (Spec.renderInputs items).map (· ++ ['\n']) = (layInputs items).map (fun pl => pl.str ++ ['\n']) := by
+    rw [renderInputs_eq, List.map_map]; rfl
+  rw [hm, C11_reader_refines_spec limit cfg hl _ _ hf, ← renderInputs_eq]
+  unfold Spec.fileStream
+  rw [C11_spec_layout limit _ (block_lt _) items hv.valid]
+
+/-- **C11_reader_layout_render** (the reader half of C11 at full strength): two valid layouts of the same inputs —
+    however they differ in blanks, line breaks, `&`, `$` comments, C comment lines, leading and trailing blanks —
+    give the same inputs in the model of `read_data`, word for word, in every block -/
+theorem C11_reader_layout_render (limit : Nat) (cfg : Cfg) (hl : cfg.lineLength = limit)
+    (items1 items2 : List (Spec.InputLayout × List Spec.Word))
+    (h1 : ValidLayoutM limit items1) (h2 : ValidLayoutM limit items2)
+    (hsame : items1.map (·.2) = items2.map (·.2)) :
+    proj (readData cfg ((Spec.renderInputs items1).map (· ++ ['\n']))) =
+      proj (readData cfg ((Spec.renderInputs items2).map (· ++ ['\n']))) := by
+  rw [C11_reader_render limit cfg hl items1 h1, C11_reader_render limit cfg hl items2 h2]
+  have : ∀ items : List (Spec.InputLayout × List Spec.Word),
+      items.map (fun it => (⟨cfg.firstBlock.value, it.2⟩ : Spec.Inp)) =
+        (items.map (·.2)).map (fun ws => (⟨cfg.firstBlock.value, ws⟩ : Spec.Inp)) := by
+    intro items; rw [List.map_map]; rfl
+  rw [this items1, this items2, hsame]
+
 /-! ### non-vacuity: one cell card in two layouts (`&` with trailing blanks and the next line in column 1; five-blank
     continuation) -/
 
@@ -221,5 +327,53 @@ example : proj (readData exCfg (fileLines exLayoutA)) =
     [.inp ⟨0, ["1".toList, "0".toList, "-1".toList, "2".toList, "imp:n=1".toList]⟩] := by decide
 example : PlainBytes [49, 32, 48] := by unfold PlainBytes; decide
 example : cleanLine [49, 200, 13, 10] = ['1', ' ', '\n'] := by decide
+
+/-! ### non-vacuity of `ValidLayout`: the cell card `1 0 -1 imp:n=1` with an `&` gap (two trailing blanks, next line in
+    column 2), a five-blank continuation, a C comment in front and a `$` comment at the end -/
+
+def exItems : List (Spec.InputLayout × List Spec.Word) :=
+  [(⟨[(0, "a comment".toList)], 2, [.blanks 2, .amp 0 2 1, .newline 0], 1, some "x &".toList⟩,
+    ["1".toList, "0".toList, "-1".toList, "imp:n=1".toList]),
+   (⟨[], 0, [], 0, none⟩, ["2".toList, "0".toList, "1".toList])]
+
+example : Spec.renderInputs exItems =
+    ["c a comment".toList, "  1   0 &  ".toList, " -1".toList, "     imp:n=1  $x &".toList, "2 0 1".toList] := by decide
+
+open MontePyVerif.Layout MontePyVerif.LayoutModel MontePyVerif.LineFacts in
+example : ValidLayoutM 128 exItems := by
+  refine ⟨by decide, ?_⟩
+  intro pl hpl
+  have hmem : pl ∈ [Spec.PLine.comment (0, "a comment".toList),
+      .data ⟨2, "1".toList, [(2, "0".toList)], .amp 0 2⟩, .data ⟨1, "-1".toList, [], .plain 0 none⟩,
+      .data ⟨5, "imp:n=1".toList, [], .plain 1 (some "x &".toList)⟩,
+      .data ⟨0, "2".toList, [(0, "0".toList), (0, "1".toList)], .plain 0 none⟩] := by
+    have : layInputs exItems = [Spec.PLine.comment (0, "a comment".toList),
+      .data ⟨2, "1".toList, [(2, "0".toList)], .amp 0 2⟩, .data ⟨1, "-1".toList, [], .plain 0 none⟩,
+      .data ⟨5, "imp:n=1".toList, [], .plain 1 (some "x &".toList)⟩,
+      .data ⟨0, "2".toList, [(0, "0".toList), (0, "1".toList)], .plain 0 none⟩] := by decide
+    rw [this] at hpl; exact hpl
+  simp only [List.mem_cons, List.not_mem_nil, or_false] at hmem
+  rcases hmem with rfl | rfl | rfl | rfl | rfl
+  · exact ⟨⟨by decide, by unfold NoTab; decide, by decide⟩, ⟨by unfold OnlyBlanks; decide, by decide⟩⟩
+  all_goals
+    refine ⟨⟨?_, ?_, ?_, ?_, ?_⟩, ⟨?_, ?_, ?_, ?_, ?_⟩⟩
+    · unfold WordOK; decide
+    · unfold WordOK; decide
+    · unfold notC; decide
+    · decide
+    · first | trivial | (unfold NoTab; decide)
+    · decide
+    · decide
+    · first | trivial | (unfold OnlyBlanks; decide)
+    · decide
+    · decide
+
+/-- the same two inputs laid out plainly: by `C11_reader_layout_render` the model reads both alike -/
+def exItemsPlain : List (Spec.InputLayout × List Spec.Word) :=
+  exItems.map (fun it => (⟨[], 0, [], 0, none⟩, it.2))
+
+example : exItems.map (·.2) = exItemsPlain.map (·.2) := by decide
+example : proj (readData exCfg ((Spec.renderInputs exItems).map (· ++ ['\n']))) =
+    proj (readData exCfg ((Spec.renderInputs exItemsPlain).map (· ++ ['\n']))) := by decide
 
 end MontePyVerif.C11
